@@ -215,6 +215,9 @@ def main(ck):
         rep = {"case": {"hex": c["hex"], "mode": c["mode"], "origin": c["origin"], "mut": c["mut"], "text": text[:400]}, "impl_out":
                {k: v for k, v in o.items() if k != "toks"}}
         mutk = c["mut"].split(":")[0]
+        if o.get("exited"):
+            stats["script-exit"] = stats.get("script-exit", 0) + 1
+            continue
         if o.get("dead"):
             stats["worker-death"] += 1
             rep["clause"] = "the worker process died on this input (fatal error / stack overflow / killed)"
@@ -247,11 +250,13 @@ def main(ck):
                 ck.violation("accepted-crash:%s:%s" % (panic_class(o.get("rpanic")), site), rep)
 
     # ---- tie: lexer model vs real lexer on (a size-limited part of) this distribution
-    tie = [i for i, c in enumerate(cases) if len(c["hex"]) <= (1000 if quick else 8000) and not outs[i].get("dead")]
-    if quick and len(tie) > 1200:
-        tie = sorted(rng.sample(tie, 1200))
+    tie = [i for i, c in enumerate(cases) if len(c["hex"]) <= (1000 if quick else 4000) and not outs[i].get("dead")
+           and not outs[i].get("exited")]
+    cap = 1200 if quick else 20000
+    if len(tie) > cap:
+        tie = sorted(rng.sample(tie, cap))
     order = sorted(tie, key=lambda i: -len(cases[i]["hex"]))
-    nshard = 16
+    nshard = 16 if quick else 128
     shards = [[] for _ in range(nshard)]
     for k, i in enumerate(order):
         shards[k % nshard].append(i)
